@@ -1196,8 +1196,8 @@ def r7_reorder_geometry(ctx):
     are accepted (rows ascending in DOF - the b-set rows of a Nastran USET table -, or rows already in bseto order); a gather that fits neither
     reading for some ordering is reported.
 
-    NOT in RULES: the unchanged tree gathers with np.argsort(bseto), the inverse of the permutation needed, and fails this rule for the two cyclic
-    orderings of three grids (checked with a run in a scratch copy, see the pass-3 report of C06).  Register it once that is fixed or listed."""
+    Finding F17 (fixed in /repo by 071f5a3): the pinned tree gathered with np.argsort(bseto), the inverse of the permutation needed, and failed this rule
+    for the two cyclic orderings of three grids (confirmed with a run in a scratch copy: nas2cam_csuper SE 101, b-set grids in the order 11, 19, 3, 27)."""
     import itertools
     fn = cs.func(ctx, CB, "cbcheck")
     worker = "_cbcoordchk" if "_cbcoordchk" in cs.pristine(ctx, CB)[0] else "cbcoordchk"
@@ -1259,6 +1259,7 @@ RULES = [
     ("C06-R4", r4_static_condensation, 8),
     ("C06-R5", r5_cbcheck_quantities, 24),
     ("C06-R6", r6_coordchk, 8),
+    ("C06-R7", r7_reorder_geometry, 2),
 ]
 LEVEL = "other"
 EXPLANATION = ("Static, decided on values (the functions are evaluated on symbols; arrays are found through the field names of the returned namespace, report "
